@@ -263,6 +263,18 @@ func FileGarbage(path string) {
 	}
 }
 
+// FileText makes the file hold exactly this text (whitespace, units, several lines ...).
+func FileText(path string, text string) {
+	if err := os.WriteFile(path, []byte(text), 0o644); err != nil {
+		panic(err)
+	}
+}
+
+// RealFileIO: from here on the integer read helper of internal/util runs its real body (in the
+// symbolic run on top of an os.ReadFile model that serves the FileText contents; natively it
+// always does).
+func RealFileIO() {}
+
 func FileExists(path string) bool {
 	_, err := os.Stat(path)
 	return err == nil
@@ -313,10 +325,32 @@ func HookWrite(path string) (mode int) {
 	mu.Lock()
 	defer mu.Unlock()
 	writes[path]++
+	if m := watches[path]; m != nil {
+		if m.TryLock() {
+			m.Unlock()
+			unlocked[path]++
+		}
+	}
 	return faults[path].writeMode
 }
 
 var writes = map[string]int{}
+var watches = map[string]*sync.Mutex{}
+var unlocked = map[string]int{}
+
+// WatchWrites classifies every later write to path (through the integer file helpers) by whether
+// m is locked at that moment; UnlockedWrites is the number of writes made while it was free.
+func WatchWrites(path string, m *sync.Mutex) {
+	mu.Lock()
+	watches[path] = m
+	mu.Unlock()
+}
+
+func UnlockedWrites(path string) int {
+	mu.Lock()
+	defer mu.Unlock()
+	return unlocked[path]
+}
 
 // FileWrites is the number of write calls (successful or not) made on path through the integer
 // file helpers so far.
@@ -455,6 +489,24 @@ func Executed(path string) bool {
 	return err == nil
 }
 
+// ExecStarts is the number of times the command prepared with ExecScenario at path has actually
+// been started as a process so far.
+func ExecStarts(path string) int {
+	b, err := os.ReadFile(path + ".starts")
+	if err != nil {
+		return 0
+	}
+	return strings.Count(string(b), "x")
+}
+
+// StopwatchStart / StopwatchOver: did the code between the two take longer than ms milliseconds?
+// Symbolically: was there a command call whose duration no contract of os/exec bounds.
+func StopwatchStart() int64 { return time.Now().UnixNano() }
+
+func StopwatchOver(t0 int64, ms int) bool {
+	return time.Now().UnixNano()-t0 > int64(ms)*int64(time.Millisecond)
+}
+
 // RealCommands makes the engine interpret the real util.SafeCmdExecution (instead of the
 // cat/sh command model used by the controller harnesses). No effect natively.
 func RealCommands() {}
@@ -476,7 +528,12 @@ const (
 	ExecExitError = 1 // exit status 3 (with output)
 	ExecNoStart   = 2 // passes the permission check but cannot be started (not executable)
 	ExecBadFormat = 3 // executable bit set but not a valid program
-	ExecTimeout   = 4 // sleeps beyond the deadline
+	ExecTimeout   = 4 // a single process that sleeps beyond the deadline
+	// prints text and exits 0 at once, leaving a grandchild that keeps the output pipe open for 4 s
+	ExecGrandchild = 5
+	// a shell that is still waiting for its child at the deadline: the shell is killed, the child
+	// survives and keeps the output pipe open for 4 s
+	ExecTimeoutOrphan = 6
 )
 
 // ExecScenario prepares the command at path to behave as stated when executed; text is what it prints.
@@ -486,7 +543,7 @@ func ExecScenario(path string, scenario int, text string) {
 
 // ExecScenarioStderr is ExecScenario with a text the command writes to its standard error.
 func ExecScenarioStderr(path string, scenario int, text string, stderr string) {
-	body := "#!/bin/sh\nprintf '%s' '" + text + "'\nprintf '%s' '" + stderr + "' >&2\n"
+	body := "#!/bin/sh\necho x >> " + path + ".starts\nprintf '%s' '" + text + "'\nprintf '%s' '" + stderr + "' >&2\n"
 	mode := os.FileMode(0o755)
 	switch scenario {
 	case ExecExitError:
@@ -496,7 +553,11 @@ func ExecScenarioStderr(path string, scenario int, text string, stderr string) {
 	case ExecBadFormat:
 		body = "\x7fELFgarbage"
 	case ExecTimeout:
-		body = "#!/bin/sh\nsleep 4\n"
+		body = "#!/bin/sh\necho x >> " + path + ".starts\nexec sleep 4\n"
+	case ExecGrandchild:
+		body += "sleep 4 &\nexit 0\n"
+	case ExecTimeoutOrphan:
+		body = "#!/bin/sh\necho x >> " + path + ".starts\nsleep 4\nexit 0\n"
 	}
 	scripts[path] = body
 	_ = os.Remove(path)
